@@ -77,7 +77,10 @@ fn gen_case(i: usize, rng: &mut Rng) -> (ConnCase, String) {
             // Content-Length from 0 to beyond usize::MAX, body absent / short / present
             let cl = *rng.pick(&["0", "1", "1024", "1025", "1000000", "4294967296", "90000000000", "9000000000000000000", "18446744073709551615", "18446744073709551616", "99999999999999999999999999999999"]);
             let sent = *rng.pick(&[0usize, 3, 1500]);
-            bytes.extend_from_slice(format!("POST /cl HTTP/1.1\r\nHost: x\r\nContent-Length: {}\r\n\r\n", cl).as_bytes());
+            // ... in HTTP/1.1 and 1.0, with and without an expectation
+            let ver = *rng.pick(&["1.1", "1.1", "1.0"]);
+            let exp = if rng.chance(1, 3) { "Expect: 100-continue\r\n" } else { "" };
+            bytes.extend_from_slice(format!("POST /cl HTTP/{}\r\nHost: x\r\n{}Content-Length: {}\r\n\r\n", ver, exp, cl).as_bytes());
             bytes.extend(std::iter::repeat(b'b').take(sent));
             blen = sent;
             tag = format!("cl{}", cl.len());
@@ -179,7 +182,7 @@ fn gen_case(i: usize, rng: &mut Rng) -> (ConnCase, String) {
             let v = *rng.pick(&["Expect: 100-continue\r\nContent-Length: 5\r\n\r\nhello", "Connection: upgrade\r\n\r\n\u{0}\u{1}raw", "Expect: \u{7f}\r\n\r\n", "Content-Length: 5\r\nContent-Length: 6\r\n\r\nhello!", ": empty-name\r\n\r\n",
                                 " Host: folded-first\r\n\r\n", "\t\r\nHost: x\r\n\r\n", " \r\n\r\n"]);
             // ... in every protocol version the request line can name
-            let ver = *rng.pick(&["1.1", "1.1", "1.0", "2.0", "3.0", "", "1", "1.", ".1", "11"]);
+            let ver = *rng.pick(&["1.1", "1.1", "1.0", "0.9", "2.0", "3.0", "", "1", "1.", ".1", "11"]);
             bytes.extend_from_slice(format!("POST /x HTTP/{}\r\n{}", ver, v).as_bytes());
             if rng.chance(1, 2) {
                 bytes.extend_from_slice(b"GET /next HTTP/1.1\r\nHost: x\r\n\r\n");
